@@ -208,7 +208,8 @@ class MultiStepReplayBuffer(ReplayBuffer):
         :return: TensorDict containing sampled experiences
         :rtype: TensorDict
         """
-        return self.storage[idxs]
+        # One row per index: the prioritised buffer reports its indices as a column
+        return self.storage[torch.as_tensor(idxs).reshape(-1)]
 
     def _get_n_step_info(self) -> TensorDict:
         """Calculate the n-step return information.
